@@ -8,7 +8,7 @@
    x paths (2-5 vertices) under embeddings up to 2^40, plus empty inputs and the PathD overloads.
 3. C19Trace.tla (TLC) judges every recorded call from the property statement: clear sample points, membership in the union
    of parallelograms, winding +1, empty => empty, output vertices near a parallelogram edge."""
-import json, os, re
+import json, os, re, shutil
 from . import core
 
 MODULE, CFG = "C19Trace", "C19Trace.cfg"
@@ -20,7 +20,7 @@ RULE = ("TLC enumerates (GenC19.tla) every non-degenerate triangle pattern x eve
         "sorted non-convex, random order = mostly self-intersecting; classified by TLC) x random paths with 2-5 vertices, coordinates < 2^8, "
         "identity embedding plus one of: translations 2^29/2^30, scale 3 with translations 2^39 (diff result at 2^40), scale 2^13 with "
         "translations 2^40-2^23, scale 2^30; empty pattern / path; PathD overloads with 0-3 decimal places compared natively with the Path64 "
-        "result. Every call is judged by TLC at 72-160 sample points (clearance and parallelogram membership computed in TLA+). "
+        "result. Every call is judged by TLC at 64-160 sample points (clearance and parallelogram membership computed in TLA+). "
         "non-trivial = non-empty result whose measured cover has both covered and uncovered sample points; distinct by (pattern, path, op, "
         "closed, embedding)")
 
@@ -42,7 +42,7 @@ def run_harness(jobs):
 
 def design_level(ctx):
     cfg = "C19Mink.cfg" if ctx.quick else "C19MinkT.cfg"
-    r = core.tlc_ok(core.tlc("C19Mink", cfg, workers=core.NCPU, timeout=1500, heap="6g"), "C19Mink")
+    r = core.tlc_ok(core.tlc("C19Mink", cfg, workers=core.NCPU, timeout=900 if ctx.quick else 3000, heap="6g"), "C19Mink")
     ctx.add_tlc(r)
     ctx.extra["design_model_states"] = r.distinct
     ctx.extra["design_model_wall_s"] = round(r.wall, 1)
@@ -56,12 +56,12 @@ def make_jobs(ctx, scope):
     q = ctx.quick; s = ctx.seed; J = []
     def add(variant, **a):
         J.append(job(ctx, len(J), variant, **a))
-    nsh = 16
+    nsh = 16 if q else 32
     for k in range(nsh):       # the TLC-enumerated scope, complete, at scale 1000
-        add("plain" if k % 2 == 0 else "hi", fam="in", **{"in": scope}, n=0, skip=k, stride=nsh, emb="3", ps=8, npts=72 if q else 80, d=0, seed=s)
+        add("plain" if k % 2 == 0 else "hi", fam="in", **{"in": scope}, n=0, skip=k, stride=nsh, emb="3", ps=8, npts=72 if q else 64, d=0, seed=s)
     if not q:                  # a strided part of it again under the 2^40 embeddings
         for k in range(8):
-            add("hi" if k % 2 == 0 else "plain", fam="in", **{"in": scope}, n=0, skip=k, stride=64, emb="4,5", ps=8, npts=80, d=0, seed=s + 1)
+            add("hi" if k % 2 == 0 else "plain", fam="in", **{"in": scope}, n=0, skip=k, stride=128, emb="4,5", ps=8, npts=64, d=0, seed=s + 1)
     for k in range(16 if q else 48):
         add("plain" if k % 2 == 0 else "hi", fam="rand", n=21 if q else 63, emb="0,1,2,4,5", rotemb=1, npts=160, d=1, seed=s * 1000 + k)
     add("plain", fam="empty", emb="0,2,4", npts=4, d=1, seed=s)
@@ -84,7 +84,7 @@ STAT_KEYS = ["calls_judged", "calls_dropped_not_in_input_class", "clear_points_i
              "patterns_simple_nonconvex", "patterns_self_intersecting", "empty_input_calls", "pathd_relations_checked"]
 
 def validate(ctx, jobs):
-    res = core.validate_traces(MODULE, CFG, [j["out"] for j in jobs], timeout=1700)
+    res = core.validate_traces(MODULE, CFG, [j["out"] for j in jobs], timeout=3000)
     byfile = {j["out"]: j for j in jobs}
     tot = [0] * len(STAT_KEYS)
     for f, r in res:
@@ -128,6 +128,7 @@ def replay_rec(rec, prop="C19"):
     if p.returncode != 0:
         raise core.ModelFailure("replay harness failed: " + p.stderr.decode(errors="replace")[-1000:])
     res = core.validate_traces(MODULE, CFG, [out], timeout=600)
+    shutil.rmtree(work, ignore_errors=True)
     return any(fl["prop"] == prop and fl["clause"] == rec["clause"] for _, r in res for fl in r.fails)
 
 def run(ctx):
